@@ -400,12 +400,19 @@ impl<'a, R: Resolve, U: Updater> Cloner for Importer<'a, R, U> {
             return Ok(RcRef::new(new_ref, data));
         }
 
-        let new = old.data().deep_clone(self)?;
-        let new = self.updater.create::<T>(new)?;
-        self.rcrefs.insert(new.get_ref().get_inner(), AnySync::new(new.data().clone()));
-        self.map.insert(old_ref, new.get_ref().get_inner());
+        // reserve the new reference before descending: the object may be reached again from what it refers to
+        // (resources that list a form whose resources they are), and a shared object is copied once
+        let promise = self.updater.promise::<Primitive>();
+        let new_ref = promise.get_inner();
+        self.map.insert(old_ref, new_ref);
 
-        Ok(new)
+        let new = old.data().deep_clone(self)?;
+        let primitive = new.to_primitive(self)?;
+        self.updater.fulfill(promise, primitive)?;
+
+        let data = Shared::new(new);
+        self.rcrefs.insert(new_ref, AnySync::new(data.clone()));
+        Ok(RcRef::new(new_ref, data))
     }
     fn clone_shared<T: DeepClone>(&mut self, old: &Shared<T>) -> Result<Shared<T>> {
         let key = &**old as *const T as usize;
